@@ -29,6 +29,10 @@ OP_PROPS = {
     "typ.merge": ["C12", "C13"],
     "typ.remove": ["C14", "C13"],
     "typ.extract": ["C14", "C13"],
+    "sch.equals": ["C17"],
+    "flt.apply": ["C19"],
+    "flt.ensure": ["C02", "C03", "C15"],
+    "rec.reconcile": ["C20"],
     "upd.reset": ["C01", "C02", "C03", "C04", "C05", "C06", "C07", "C19", "C20"],
     "upd.apply": ["C01", "C02", "C03", "C04", "C05", "C06", "C07", "C19", "C20"],
     "upd.update": ["C05", "C06", "C19", "C20"],
@@ -39,6 +43,7 @@ PROPS = {
         "domains": [
             {"name": "val", "n_quick": 3000, "n_thorough": 60000},
             {"name": "pe", "n_quick": 2000, "n_thorough": 40000},
+            {"name": "sch", "n_quick": 150, "n_thorough": 3000},
         ],
         "lean_modules": ["SMD.Proofs.ValueOrder", "SMD.Properties.C17"],
         "theorems": [],
@@ -67,6 +72,16 @@ for _p in ("C01", "C02", "C03", "C04", "C05", "C06", "C07", "C19"):
         "theorems": [],
         "assumptions": ["identity converter over 1-4 version labels; schemas of the generated family (sgen)"],
     }
+
+PROPS["C13"]["domains"].append({"name": "sch", "n_quick": 150, "n_thorough": 3000})
+PROPS["C19"]["domains"].append({"name": "flt", "n_quick": 1500, "n_thorough": 30000})
+PROPS["C20"] = {
+    "domains": [{"name": "rec", "n_quick": 3000, "n_thorough": 60000},
+                {"name": "upd", "n_quick": 800, "n_thorough": 20000}],
+    "lean_modules": ["SMD.Properties.C20"],
+    "theorems": [],
+    "assumptions": ["identity converter; lossless renaming converters are future work of this check (see DESIGN)"],
+}
 
 HOOK_COMMITS = []
 NOT_APPLICABLE = {}
